@@ -76,17 +76,18 @@ class Partial:
             self.samples.append(jsonable(s))
 
     def violation(self, sub, case, detail=None, sig=None):
+        """Record a violation.  Records WITH a signature (known-finding candidates) are counted in
+        full but only a few representatives per signature are stored, so that thousands of hits
+        of one known finding can never crowd out a fresh (unsigned) violation."""
         self.nviol += 1
         if sig is not None:
             self.bump("sig:" + sig)
-        if len(self.viols) < self.MAXV:
-            self.viols.append({"sub": sub, "sig": sig, "case": jsonable(case),
-                               "detail": jsonable(detail)})
-        else:
-            # keep at least one representative per distinct signature
-            if sig is not None and all(v["sig"] != sig for v in self.viols):
-                self.viols.append({"sub": sub, "sig": sig, "case": jsonable(case),
-                                   "detail": jsonable(detail)})
+            if sum(1 for v in self.viols if v["sig"] == sig) >= 2:
+                return
+        elif sum(1 for v in self.viols if v["sig"] is None) >= self.MAXV:
+            return
+        self.viols.append({"sub": sub, "sig": sig, "case": jsonable(case),
+                           "detail": jsonable(detail)})
 
 
 def _load_known():
@@ -140,8 +141,10 @@ class Ctx(Partial):
         self.nontrivial += part.nontrivial
         self.nviol += part.nviol
         for v in part.viols:
-            if len(self.viols) < 400 or (v["sig"] is not None
-                                         and all(w["sig"] != v["sig"] for w in self.viols)):
+            if v["sig"] is not None:
+                if sum(1 for w in self.viols if w["sig"] == v["sig"]) < 3:
+                    self.viols.append(v)
+            elif sum(1 for w in self.viols if w["sig"] is None) < 400:
                 self.viols.append(v)
         for s in part.samples:
             if len(self.samples) < 12:
